@@ -383,16 +383,24 @@ func RunMCPProgram(p *Program) *Result {
 				}
 				// actor must equal the principal
 				if allowed && t.mutating && !t.rc && n != "config_apply" {
-					b2 := env.snapshot()
-					resp2, audit2 := env.call(c, "tools/call", map[string]any{"name": n, "arguments": benignArgs(n, env, "someone-else@example.test")})
-					if !isErrorResult(resp2) {
-						add("C20.actor.mismatch.ran", loc+"/"+n, "tool %s ran with actor != principal", n)
-					}
-					if env.snapshot() != b2 {
-						add("C20.actor.mismatch.effect", loc+"/"+n, "tool %s with a foreign actor changed state", n)
-					}
-					if len(audit2) != 1 {
-						add("C20.audit.count", loc+"/"+n, "tool %s with a foreign actor produced %d audit records", n, len(audit2))
+					// a stranger, and near misses of the configured principal: another letter case, one
+					// character short, one character more (the property says "equals")
+					pr := strings.TrimSpace(c.Principal)
+					for _, actor := range []string{"someone-else@example.test", strings.ToUpper(pr[:1]) + pr[1:], strings.ToUpper(pr), pr[:len(pr)-1], pr + "x"} {
+						if actor == pr {
+							continue
+						}
+						b2 := env.snapshot()
+						resp2, audit2 := env.call(c, "tools/call", map[string]any{"name": n, "arguments": benignArgs(n, env, actor)})
+						if !isErrorResult(resp2) {
+							add("C20.actor.mismatch.ran", loc+"/"+n, "tool %s ran with actor %q != principal %q", n, actor, pr)
+						}
+						if env.snapshot() != b2 {
+							add("C20.actor.mismatch.effect", loc+"/"+n, "tool %s with actor %q (principal %q) changed state", n, actor, pr)
+						}
+						if len(audit2) != 1 {
+							add("C20.audit.count", loc+"/"+n, "tool %s with actor %q (principal %q) produced %d audit records", n, actor, pr, len(audit2))
+						}
 					}
 					res.probe("actor.mismatch")
 				}
